@@ -225,6 +225,8 @@ class Interp:
             if isinstance(n, ast.FunctionDef):
                 fv = self.make_func(n, mod, None, cls)
                 if fv.kind == "setter":
+                    # @<prop>.setter: kept next to the getter, run by Interp.setattr
+                    cls.members.setdefault("__setters__", {})[n.name] = fv
                     continue
                 cls.members[n.name] = fv
             elif isinstance(n, ast.Assign):
@@ -387,7 +389,12 @@ class Interp:
             # property setters are not modelled; data attributes only
             c, m = self.class_lookup(obj.cls, name)
             if isinstance(m, FuncVal) and m.kind == "property":
-                raise Undecided(f"assignment through property {name}")
+                setters = c.members.get("__setters__", {}) if c is not None else {}
+                st = setters.get(name)
+                if st is None:
+                    raise Undecided(f"assignment through property {name} (no setter found in the defining class)")
+                self.call_function(st, [obj, value], {})
+                return
             if self.ctx.frozen and id(obj) in self.ctx.frozen:
                 self.ctx.mutated.append((obj, name))
             obj.attrs[name] = value
